@@ -232,7 +232,12 @@ fn main() {
             }
         }
         "C10" => go(&props::c10::C10, &cfg, &mut reports, &mut replayed),
-        "C13" => go(&props::c13::C13, &cfg, &mut reports, &mut replayed),
+        "C13" => {
+            go(&props::c13::C13, &cfg, &mut reports, &mut replayed);
+            // many malformed deliveries to ONE context: nothing may panic or overflow however many arrive
+            let t = cfg.tier.thorough();
+            go(&session::LongRuns { suites: session::seq_suites(false), n_fail: if t { 300_000 } else { 70_000 }, n_ok: 1 }, &cfg, &mut reports, &mut replayed);
+        }
         "C14" => go(&props::c14::C14, &cfg, &mut reports, &mut replayed),
         "C15" => go(&props::c14::C15, &cfg, &mut reports, &mut replayed),
         "C11" => {
